@@ -1,7 +1,8 @@
 """C19 — reentrancy: no writable global/static state, no heap, imports within the
 allow-list, pointer parameters do not escape (DESIGN 5/C19)."""
 import os, re
-from ..build import Broken, run, CLANG
+from ..build import Broken, CLANG
+from ..build import run as sh
 from ..facts import Module, relpath
 from .. import asmsrc
 
@@ -200,10 +201,10 @@ def gcc_objects(ck, build):
     for u in build.c_units():
         src = os.path.join(build.repo, u["file"])
         obj = os.path.join(outdir, u["file"].replace("/", "_") + ".o")
-        p = run(["gcc", "-I" + os.path.join(build.repo, "src"), "-I" + vdir, "-DHAVE_CONFIG_H", "-O3", "-std=gnu99", "-w", "-c", src, "-o", obj])
+        p = sh(["gcc", "-I" + os.path.join(build.repo, "src"), "-I" + vdir, "-DHAVE_CONFIG_H", "-O3", "-std=gnu99", "-w", "-c", src, "-o", obj])
         if p.returncode != 0:
             raise Broken("gcc cannot compile %s: %s" % (u["file"], p.stderr[-500:]))
-        nm = run(["llvm-nm-14", obj]).stdout
+        nm = sh(["llvm-nm-14", obj]).stdout
         defined = set()
         for line in nm.splitlines():
             parts = line.split()
